@@ -372,6 +372,22 @@ func (e *Engine) unusedAnchors() string {
 			// an anchor that names an instruction that exists but was never reached is fine
 			a := strings.TrimPrefix(at.Anchor, "after ")
 			found := false
+			if strings.HasPrefix(a, "$") {
+				// anchor inside a closure: "$k:<anchor>"
+				if i := strings.Index(a, "/"); i > 0 {
+					if cl := findAnon(e.unit.Fn, e.unit.Fn.Name()+a[:i]); cl != nil {
+						for _, name := range e.anchorsOf(cl) {
+							if name == a[i+1:] || (strings.HasSuffix(name, "#1") && strings.TrimSuffix(name, "#1") == a[i+1:]) {
+								found = true
+							}
+						}
+					}
+				}
+				if !found {
+					return fmt.Sprintf("anchor %q matches no instruction in %s", at.Anchor, c.Key)
+				}
+				continue
+			}
 			for _, name := range e.anchorsOf(e.unit.Fn) {
 				if name == a || (strings.HasSuffix(name, "#1") && strings.TrimSuffix(name, "#1") == a) {
 					found = true
